@@ -5,8 +5,8 @@ C03 – CopyTo into an empty schema-typed object is total and schema-conformant.
 
 Full statement: `C03_full`. Proved here: `C03_plain_partial` (messages of scalars held by value, any number of
 fields). The other templates are covered by the correspondence and by `Spec.c03Check` evaluated on the
-implementation's outputs; the unchanged code violates the full statement on values with a nil nullable embedded
-message that has message / list / map children (finding F1b, `C03_full_false_witness`).
+implementation's outputs; finding F1b (nil nullable embedded message with message / list / map
+children: panic) is repaired in /repo, its former witness now runs (`C03_f1b_witness_repaired`).
 -/
 namespace PGT.Props.C03
 open PGT PGT.Spec
@@ -75,7 +75,7 @@ theorem C03_missing_type (f : Field) (obj : GoVal) (atys : Option (List (String 
   simp only at h
   simp [copyToField, copyToFieldWith, h]
 
-/-- The witness of finding F1b: a nullable embedded message `Emb` that is nil and has a list child. -/
+/-- The former witness of finding F1b (fixed in /repo): a nullable embedded message `Emb` that is nil and has a list child. -/
 def f1bField : Field :=
   { info := { name := "L", nameSnake := "l", kind := .primitiveList, isRepeated := true, protoType := "string",
               parentIsOptionalEmbed := true, parentIsOptionalEmbedFieldName := "Emb", parentIsOptionalEmbedFullType := "Emb",
@@ -84,10 +84,13 @@ def f1bField : Field :=
                       elemValueType := "github.com/hashicorp/terraform-plugin-framework/types.String",
                       valueCastToType := "string", valueCastFromType := "string", zeroValue := "\"\"" } } }
 
-theorem C03_full_false_witness :
+/-- with the repaired generator the list child of a nil embedded message is rendered as a null list -/
+theorem C03_f1b_witness_repaired :
     (match copyTo { info := { name := "Root" }, fields := [f1bField] } (.struct [("Emb", .ptr none)])
       (.obj false false none (some [("l", .list (some (.prim .string)))])) with
-     | .panic w => w == "nil-deref"
+     | .ok r => (match r.tf with
+        | .obj _ _ (some [("l", .list false true _ _)]) _ => r.diags.isEmpty
+        | _ => false)
      | _ => false) = true := by
   decide
 
